@@ -18,9 +18,11 @@ import (
 	"github.com/Oneledger/protocol/action"
 	acteth "github.com/Oneledger/protocol/action/eth"
 	ethchain "github.com/Oneledger/protocol/chains/ethereum"
+	onsact "github.com/Oneledger/protocol/action/ons"
 	"github.com/Oneledger/protocol/consensus"
 	"github.com/Oneledger/protocol/data/governance"
 	"github.com/Oneledger/protocol/data/keys"
+	"github.com/Oneledger/protocol/data/ons"
 	"github.com/Oneledger/protocol/identity"
 	"github.com/Oneledger/protocol/serialize"
 	ethcmn "github.com/ethereum/go-ethereum/common"
@@ -607,6 +609,33 @@ func c02Witness(name string, w *World) *History {
 			}
 		}
 		s.empty(1)
+	case "same_account_both_roles":
+		// both parties of a two-party kind are ONE account (what read-both-write-both code breaks): the owner buys its own name on sale
+		// (offer = asking price, offer above it), SEND to self, DOMAIN_SEND to the sender's own name, PROPOSAL_WITHDRAW_FUNDS with
+		// beneficiary = funder, a bid on the bidder's own asset, delegate / undelegate by a validator's stake account; and a
+		// DOMAIN_PURCHASE whose `account` field names a THIRD funded account, offer above the asking price (the buyer pays all of it)
+		u3 := w.Users[3]
+		v0 := w.Vals[0]
+		price := oltAmt("1002000000000000000000")
+		s.empty(2)
+		s.block([][]byte{txDomainCreate(u0, "self.ol", price, s.memo()), txDomainCreate(u1, "acct.ol", price, s.memo()),
+			txPropCreate(u0, "wself", governance.ProposalTypeGeneral, oltAmt("1000000000"), 6, 0, s.memo())}, "domain create", "domain create", "prop create")
+		s.block([][]byte{txPropFund(u1, "wself", oltAmt("7000"), s.memo())}, "prop fund 7000")
+		s.block([][]byte{txDomainSell(u0, "self.ol", oltAmt("5000000000000000000"), false, s.memo()), txDomainSell(u1, "acct.ol", oltAmt("5000000000000000000"), false, s.memo())}, "domain sell 5 OLT", "domain sell 5 OLT")
+		s.empty(1)
+		s.block([][]byte{txDomainPurchase(u0, "self.ol", oltAmt("5000000000000000000"), s.memo())}, "the owner buys its own name, offer = asking price")
+		s.empty(1)
+		s.block([][]byte{txDomainSell(u0, "self.ol", oltAmt("5000000000000000000"), false, s.memo())}, "domain sell again")
+		s.empty(1)
+		s.block([][]byte{txDomainPurchase(u0, "self.ol", oltAmt("6000000000000000000"), s.memo()),
+			mkTx(action.DOMAIN_PURCHASE, onsact.DomainPurchase{Name: ons.Name("acct.ol"), Buyer: u2.Addr, Account: u3.Addr, Offering: oltAmt("8000000000000000000")}, GAS, s.memo(), u2)},
+			"the owner buys its own name, offer above the asking price", "purchase with account = a third funded account, offer above the asking price")
+		s.block([][]byte{txSend(u0, u0.Addr, oltAmt("123000000000000000000"), s.memo()), txDomainSend(u0, "self.ol", oltAmt("45000000000000000000"), s.memo()),
+			txPropWithdraw(u1, "wself", oltAmt("3000"), u1.Addr, s.memo()), txBidCreate(u0, u0.Addr, "ownthing", bidExample, oltAmt("9000000000000000000"), bidFar, s.memo())},
+			"send to self", "domain send to the sender's own name", "proposal withdraw with beneficiary = funder", "bid on the bidder's own asset")
+		s.block([][]byte{txDelegate(v0.Stake, oltAmt("50000000000000000000"), s.memo())}, "delegate by a validator's stake account")
+		s.block([][]byte{txUndelegate(v0.Stake, oltAmt("20000000000000000000"), s.memo())}, "undelegate by a validator's stake account")
+		s.empty(5)
 	case "two_finalized_in_one_block":
 		full := scenarioHistory("govupdate", w)
 		s.h.Blocks, s.h.Descr = full.Blocks[:7], full.Descr[:7]
@@ -911,7 +940,7 @@ func c02Main(args []string) int {
 			}
 		}
 		world := [3]int{3, 5, 2}
-		for _, name := range []string{"proposal_fund_negative", "two_finalized_in_one_block", "withdraw_funds_negative", "withdraw_reward_negative", "olvm_foreign_from", "double_unstake", "self_stake_foreign_slot0", "refused_credit_then_spend", "reward_withdrawal_empty_pool", "reward_withdrawal_empty_pool_checktx", "bid_negative_amount", "olvm_sstore_refund", "eth_redeem_refund", "olvm_create_prefunded", "victim_key_relabelled"} {
+		for _, name := range []string{"proposal_fund_negative", "two_finalized_in_one_block", "withdraw_funds_negative", "withdraw_reward_negative", "olvm_foreign_from", "double_unstake", "self_stake_foreign_slot0", "refused_credit_then_spend", "reward_withdrawal_empty_pool", "reward_withdrawal_empty_pool_checktx", "bid_negative_amount", "olvm_sstore_refund", "eth_redeem_refund", "olvm_create_prefunded", "victim_key_relabelled", "same_account_both_roles"} {
 			w := NewWorld(world[0], world[1], world[2])
 			c, p := c02RunHistoryG("witness_"+name, world, c02Witness(name, w), c02WitnessExodus[name], c02WitnessGenesis[name])
 			cases = append(cases, c)
